@@ -118,6 +118,7 @@ ElemToks(O, obj, e) ==
 
 ElemWidth(O, obj, e, enc) == Width(enc, ElemToks(O, obj, e))
 
+
 -----------------------------------------------------------------------------
 (* Objects *)
 MakeOp(O, id) == CHOOSE o \in O : o.id = id
@@ -150,6 +151,130 @@ ObjView(O, obj, enc) ==
 
 (* The document: one record per object reachable from the root. *)
 Interp(O, enc) == {ObjView(O, obj, enc) : obj \in Reachable(O)}
+
+-----------------------------------------------------------------------------
+(* Rich text (C24-C26): marks, spans, cursors.                              *)
+(* A mark is a pair of zero-width insert ops: "mark" (begin; name, value,   *)
+(* expand = expand-before) and "markend" whose id is the begin's id + 1     *)
+(* (expand = expand-after).  Walking the RGA left to right a begin adds its *)
+(* id to the active set and the matching end removes it.  At an element the *)
+(* value of a name is the value of the greatest active id of that name; a   *)
+(* null value means unmarked (Peritext).                                    *)
+(* TLC re-evaluates a LET definition at every use inside quantifiers; binding the value with a  *)
+(* quantifier over a singleton evaluates it once.                                                *)
+Let1(e, F(_)) == CHOOSE r \in {F(x) : x \in {e}} : TRUE
+
+OpById(O, id) == CHOOSE o \in O : o.id = id
+HasOp(O, id) == \E o \in O : o.id = id
+MarkStep(O, active, id) ==
+  LET o == OpById(O, id) IN
+  IF o.act = "mark" THEN active \cup {id}
+  ELSE IF o.act = "markend" THEN active \ {<<id[1] - 1, id[2]>>}
+  ELSE active
+
+(* active sets at the visible elements, in document order *)
+RECURSIVE MarkWalk(_, _, _, _, _)
+MarkWalk(O, obj, rga, i, active) ==
+  IF i > Len(rga) THEN <<>>
+  ELSE LET a2 == MarkStep(O, active, rga[i]) IN
+       IF ElemReg(O, obj, rga[i]) # {} THEN <<a2>> \o MarkWalk(O, obj, rga, i + 1, a2)
+       ELSE MarkWalk(O, obj, rga, i + 1, a2)
+ElemActive(O, obj) == MarkWalk(O, obj, RGA(O, obj), 1, {})
+
+MarkVals(O, active) ==
+  LET names == {OpById(O, b).mname : b \in active} IN
+  {[name |-> n, v |-> OpById(O, MaxId({b \in active : OpById(O, b).mname = n})).val] : n \in names}
+ShownMarks(O, active) == {m \in MarkVals(O, active) : m.v.k # "null"}
+
+(* per visible element: the marks a reader sees *)
+ElemMarks(O, obj) == Let1(ElemActive(O, obj), LAMBDA a : [i \in DOMAIN a |-> ShownMarks(O, a[i])])
+
+SeqWidths(O, obj, enc) ==
+  Let1(VisibleElems(O, obj), LAMBDA es :
+       [i \in DOMAIN es |-> IF ObjTypeOf(O, obj) = "text" THEN ElemWidth(O, obj, es[i], enc) ELSE 1])
+
+RECURSIVE Repeat(_, _)
+Repeat(x, n) == IF n <= 0 THEN <<>> ELSE <<x>> \o Repeat(x, n - 1)
+
+(* marks per unit index (0-based index u is entry u+1) *)
+UnitMarks(O, obj, enc) ==
+  Let1(ElemMarks(O, obj), LAMBDA em : Let1(SeqWidths(O, obj, enc), LAMBDA ws :
+       FlattenSeq([i \in DOMAIN em |-> Repeat(em[i], ws[i])])))
+
+(* marks(): maximal runs of units carrying the same (name, value) *)
+MarkRuns(um) ==
+  LET n == Len(um) IN
+  {[name |-> m.name, v |-> m.v, s |-> r[1] - 1, e |-> r[2]] :
+     <<r, m>> \in {<<r, m>> \in ((1..n) \X (1..n)) \X (UNION {um[i] : i \in 1..n}) :
+                     /\ r[1] <= r[2]
+                     /\ \A j \in r[1]..r[2] : m \in um[j]
+                     /\ (r[1] = 1 \/ m \notin um[r[1] - 1])
+                     /\ (r[2] = n \/ m \notin um[r[2] + 1])}}
+MarksList(O, obj, enc) == MarkRuns(UnitMarks(O, obj, enc))
+
+(* spans(), flattened to one entry per code point so that how runs are cut does not matter *)
+ElemIsBlock(O, obj, e) ==
+  LET R == ElemReg(O, obj, e)
+      w == CHOOSE o \in R : o.id = MaxId({p.id : p \in R})
+  IN  w.act = "make" /\ w.val.s = "map"
+SpanCells(O, obj) ==
+  Let1(VisibleElems(O, obj), LAMBDA es : Let1(ElemMarks(O, obj), LAMBDA em :
+       FlattenSeq([i \in DOMAIN es |->
+        IF ElemIsBlock(O, obj, es[i]) THEN <<[t |-> "block", tok |-> "objrepl", marks |-> {}]>>
+        ELSE Let1(ElemToks(O, obj, es[i]), LAMBDA tk : [j \in DOMAIN tk |-> [t |-> "text", tok |-> tk[j], marks |-> em[i]]])])))
+
+(* ---- cursors ---- *)
+ElemOfOp(O, id) == LET o == OpById(O, id) IN IF o.insert THEN o.id ELSE o.elem
+(* sum of the widths of the visible elements strictly before element e in document order *)
+IndexBefore(O, obj, enc, e) ==
+  Let1(RGA(O, obj), LAMBDA rga :
+    Let1(CHOOSE i \in DOMAIN rga : rga[i] = e, LAMBDA p :
+      Let1({i \in 1..(p - 1) : ElemReg(O, obj, rga[i]) # {}}, LAMBDA vis :
+        IF ObjTypeOf(O, obj) = "text"
+        THEN SumSeq([k \in 1..(p - 1) |-> IF k \in vis THEN ElemWidth(O, obj, rga[k], enc) ELSE 0])
+        ELSE Cardinality(vis))))
+RECURSIVE BeforeWalk(_, _, _, _)
+BeforeWalk(O, obj, enc, e) ==
+  IF e = HEAD THEN 0
+  ELSE IF ElemReg(O, obj, e) # {} THEN IndexBefore(O, obj, enc, e)
+  ELSE BeforeWalk(O, obj, enc, OpById(O, e).elem)
+(* mode "a": After, "b": Before; -1 = the cursor names nothing in this object *)
+CursorPos(O, obj, enc, id, mode) ==
+  IF ~(\E o \in O : o.id = id /\ o.obj = obj /\ ~o.ismap) THEN -1
+  ELSE LET e == ElemOfOp(O, id) IN
+       IF mode = "a" \/ ElemReg(O, obj, e) # {} THEN IndexBefore(O, obj, enc, e)
+       ELSE BeforeWalk(O, obj, enc, OpById(O, e).elem)
+
+(* the element covering unit index u (0-based), and whether u is its first unit *)
+RECURSIVE ElemAtUnit(_, _, _)
+ElemAtUnit(ws, u, i) ==   \* [i, start]
+  IF i > Len(ws) THEN [i |-> 0, start |-> FALSE]
+  ELSE IF u < ws[i] THEN [i |-> i, start |-> u = 0]
+  ELSE ElemAtUnit(ws, u - ws[i], i + 1)
+
+(* ---- expand rule (C25) -------------------------------------------------- *)
+(* X: a new insert op keyed on ref in obj; Ob: the ops before.  The gap is   *)
+(* the stretch of the RGA between the visible elements around ref.  Each     *)
+(* mark anchor in the gap whose partner lies outside the gap constrains the  *)
+(* side the new element must be on.                                          *)
+ExpandHolds(Ob, obj, ref) ==
+  \A rga \in {RGA(Ob, obj)} :
+  \A vis \in {{i \in DOMAIN rga : ElemReg(Ob, obj, rga[i]) # {}}} :
+  \A acts \in {[i \in DOMAIN rga |-> OpById(Ob, rga[i])]} :
+  LET n == Len(rga)
+      p == IF ref = HEAD THEN 0 ELSE CHOOSE i \in 1..n : rga[i] = ref
+      lo == IF \E i \in 1..p : i \in vis THEN Max({i \in 1..p : i \in vis}) ELSE 0
+      hi == IF \E i \in (p + 1)..n : i \in vis THEN Min({i \in (p + 1)..n : i \in vis}) ELSE n + 1
+      gap == (lo + 1)..(hi - 1)
+      posOf(id) == IF \E i \in 1..n : rga[i] = id THEN CHOOSE i \in 1..n : rga[i] = id ELSE 0
+      isB(q) == acts[q].act = "mark"
+      isE(q) == acts[q].act = "markend"
+      partner(q) == IF isB(q) THEN posOf(<<rga[q][1] + 1, rga[q][2]>>) ELSE posOf(<<rga[q][1] - 1, rga[q][2]>>)
+      anchors == {q \in gap : (isB(q) \/ isE(q)) /\ partner(q) \notin gap}
+      mustBefore == {q \in anchors : (isB(q) /\ acts[q].expand) \/ (isE(q) /\ ~acts[q].expand)}
+      mustAfter == anchors \ mustBefore
+      satisfiable == \A a \in mustBefore : \A b \in mustAfter : a < b
+  IN  satisfiable => (\A q \in mustBefore : q <= p) /\ (\A q \in mustAfter : q > p)
 
 -----------------------------------------------------------------------------
 (* Normalisation of the logged projection (JSON arrays -> sets where order  *)
